@@ -492,6 +492,38 @@ func (x *Exec) libCall(key string, fn *types.Func, call *ast.CallExpr, recvExpr 
 		for _, a := range call.Args {
 			x.evalMulti(a, env)
 		}
+		// a slice argument is a buffer the callee may fill (io.Reader.Read, io.ReaderAt.ReadAt, ...): same header,
+		// unknown elements afterwards
+		if !x.termMode {
+			for _, a := range call.Args {
+				if t := info.TypeOf(a); t != nil {
+					if sl, isSl := t.Underlying().(*types.Slice); isSl {
+						if b, isB := sl.Elem().Underlying().(*types.Basic); isB && b.Kind() == types.Uint8 {
+							root := a
+							for {
+								if se, ok := ast.Unparen(root).(*ast.SliceExpr); ok {
+									root = se.X
+									continue
+								}
+								break
+							}
+							if isAddressable(root) {
+								func() {
+									defer func() {
+										if r := recover(); r != nil {
+											if _, ok := r.(Unsupported); !ok {
+												panic(r)
+											}
+										}
+									}()
+									x.overwriteWindow(a, x.eval(a, env), env)
+								}()
+							}
+						}
+					}
+				}
+			}
+		}
 		// anything reachable through a pointer argument may be written by the library
 		for _, a := range call.Args {
 			if u, ok := ast.Unparen(a).(*ast.UnaryExpr); ok && u.Op == token.AND && isAddressable(u.X) {
